@@ -56,6 +56,7 @@ CONTEXTS = {
     "with": "with ctx({C}) as c:\n    return c",
     "decorator": "@deco({C})\ndef g():\n    return 1\nreturn g",
     "raise-after": "v = {C}\nreturn 1 // tr('zero', 0)",
+    "fail-propagates": "v = {C}\nw = (tr('pre', 0),\n     {FAIL})\nreturn v, w",
     "two-calls": "return ({C}, {C})",
     "binop": "return ({C},) + ({C},)",
     "class-body": "class Z:\n    a = {C}\nreturn Z.a",
@@ -301,11 +302,9 @@ def observe(side, get_fn, kind, context, fname):
         else:
             res = fn(7)
         obs["result"] = _plain(res)
-    except NoMethod as e:
-        obs["exc"] = ("TypeError", "No method")
     except Exception as e:  # noqa
         msg = str(e)
-        if isinstance(e, TypeError) and msg.startswith("No method"):
+        if isinstance(e, NoMethod) or (isinstance(e, TypeError) and msg.startswith("No method")):
             obs["exc"] = ("TypeError", "No method")
         else:
             obs["exc"] = (type(e).__name__, msg[:60] if not isinstance(e, TypeError) else "")
